@@ -53,6 +53,8 @@ def make(name, tx=0, ty=0):
         return ConnectedShape([poly("big", tx, ty), poly("hole", tx, ty)])
     if name == "hollow2":  # smaller frame: mid minus unit-ish hole
         return ConnectedShape([poly("mid", tx, ty), poly("hole", tx, ty)])
+    if name == "opring":  # the same frame as hollow2, but built the way users do: by an operator
+        return poly("mid", tx, ty) - poly("hole", tx, ty, rev=True)
     if name == "two":  # two components
         return DisjointShape([poly("square", tx, ty), poly("far", tx, ty)])
     if name == "framedot":  # frame with an island in its hole... a Disjoint of Connected + Simple
@@ -74,7 +76,7 @@ def region_of_name(name, tx=0, ty=0):
         return ("poly", tr_pts(POLY[name[3:]], tx, ty, rev=True), not _ccw(POLY[name[3:]]))
     if name == "hollow":
         return ("and", [region_of_name("big", tx, ty), region_of_name("hole", tx, ty)])
-    if name == "hollow2":
+    if name in ("hollow2", "opring"):
         return ("and", [region_of_name("mid", tx, ty), region_of_name("hole", tx, ty)])
     if name == "two":
         return ("or", [region_of_name("square", tx, ty), region_of_name("far", tx, ty)])
